@@ -21,7 +21,7 @@ from props import c11
 PREFIXES = ['C12.']
 
 
-def run_rp(ctx, shapes, per_shape_axes):
+def run_rp(ctx, shapes, per_shape_axes, big=()):
     rng = np.random.default_rng(ctx.seed + 12)
     logdir = ctx.scratch.sub('poollog3')
     cases, metas = [], []
@@ -29,7 +29,7 @@ def run_rp(ctx, shapes, per_shape_axes):
     for (n0, n1) in shapes:
         for axis in per_shape_axes:
             for listed in (False, True):
-                sigs = pt.make_sigs(rng, (n0, n1), n=128)
+                sigs = pt.vary(pt.make_sigs(rng, (n0, n1), n=128), k + k // 5)
                 if not listed:
                     kwargs = pt.kw_variant(rng, k)
                 elif axis == (0, 1):
@@ -50,10 +50,24 @@ def run_rp(ctx, shapes, per_shape_axes):
                 if axis != (0, 1):
                     case['check_schedule'] = False if not case['logs'][0] else case['check_schedule']
                 cases.append(case)
-                metas.append({'shape': [n0, n1], 'axis': str(axis), 'options': ('2-D list' if axis == (0, 1) else '1-D list') if listed else 'shared',
+                metas.append({'shape': [n0, n1], 'array': pt.ARRAY_VARIANTS[(k + k // 5) % 6], 'axis': str(axis), 'options': ('2-D list' if axis == (0, 1) else '1-D list') if listed else 'shared',
                               'n_jobs': n_jobs, 'progress': progress, 'api': 'BycycleGroup.fit' if via_group else 'compute_features_3d',
                               'realised_completion_order': realised, 'worker_processes_used': len(case['logs'])})
                 k += 1
+    # beyond small scopes: more than 2^8 signals in one 3-D array (flat positions outgrow 8-bit integers), per-signal option table
+    for (n0, n1) in big:
+        sigs = pt.vary(pt.make_sigs(rng, (n0, n1), n=80), k)
+        listed = k % 2 == 0
+        kwargs = [[pt.kw_variant(rng, k + 3 * i + 5 * j) for j in range(n1)] for i in range(n0)] if listed else pt.kw_variant(rng, k)
+        case, realised = pt.run_3d(sigs, 64, (8, 12), kwargs, (0, 1), 8, [0.0] * (n0 * n1), logdir)
+        case['ref'] = pt.reference_3d(sigs, 64, (8, 12), kwargs, (0, 1))
+        case['pid'] = 'C12'
+        case['check_logs'] = case['check_schedule']
+        case['check_schedule'] = False
+        cases.append(case)
+        metas.append({'shape': [n0, n1], 'array': pt.ARRAY_VARIANTS[k % 6], 'axis': '(0, 1)', 'options': '2-D list' if listed else 'shared', 'n_jobs': 8, 'progress': None,
+                      'api': 'compute_features_3d', 'realised_completion_order': [], 'worker_processes_used': len(case['logs'])})
+        k += 1
     c11.judge(ctx, cases, metas, 'C12')
     ctx.nontrivial += sum(1 for m in metas if m['shape'][0] != m['shape'][1] or 1 in m['shape'])
 
@@ -80,11 +94,11 @@ def run(ctx):
     if ctx.quick:
         c11.run_mc(ctx, 'C12', [(4, 2), (6, 3)])
         run_proof(ctx)
-        run_rp(ctx, [(2, 3), (3, 1), (1, 2), (2, 2)], axes)
+        run_rp(ctx, [(2, 3), (3, 1), (1, 2), (2, 2)], axes, big=[(9, 32)])
     else:
         c11.run_mc(ctx, 'C12', [(4, 2), (6, 3), (6, 6)])
         run_proof(ctx)
-        run_rp(ctx, list(itertools.product([1, 2, 3], [1, 2, 3])) + [(2, 4), (4, 2)], axes)
+        run_rp(ctx, list(itertools.product([1, 2, 3], [1, 2, 3])) + [(2, 4), (4, 2)], axes, big=[(9, 32), (33, 8), (1, 300), (258, 1)])
 
 
 def replay(ctx, case):
